@@ -493,7 +493,7 @@ with rexec_block (fuel : nat) (E : env) (b : rblock) {struct fuel} : xres :=
     | GCons s r => xseq (rexec_stmt f E s) (fun E1 => rexec_block f E1 r)
     end
   end
-(* incan_stdlib::iter::PyRange::next: `self.cur += self.step` wraps in release builds *)
+(* incan_stdlib::iter::PyRange::next: `self.cur = self.cur.checked_add(self.step).unwrap_or(self.end)` *)
 with rexec_range (fuel : nat) (E : env) (x : ident) (cur stp step : Z) (b : rblock) {struct fuel} : xres :=
   match fuel with
   | O => ([], E, Halt OutOfFuel)
@@ -502,7 +502,8 @@ with rexec_range (fuel : nat) (E : env) (x : ident) (cur stp step : Z) (b : rblo
     let '(o, E1, g) := in_scope (length E) (rexec_block f ((x, VI cur) :: E) b) in
     match g with
     | Go | Cont =>
-        let '(o2, E2, g2) := rexec_range f E1 x (wrap64 (cur + step)) stp step b in (o ++ o2, E2, g2)
+        let nxt := if in_i64b (cur + step) then cur + step else stp in
+        let '(o2, E2, g2) := rexec_range f E1 x nxt stp step b in (o ++ o2, E2, g2)
     | Brk => (o, E1, Go)
     | Halt k => (o, E1, Halt k)
     end
@@ -530,11 +531,13 @@ Fixpoint tlookup (x : ident) (E : tenv) : option (ty * bool) :=
 Definition tbind (x : ident) (v : ty * bool) (E : tenv) : tenv :=
   match E with [] => [[(x, v)]] | f :: r => ((x, v) :: f) :: r end.
 
-Fixpoint rtype_expr (E : tenv) (e : rexpr) : option ty :=
+(* Rust typing uses a FLAT environment (newest binding first): `let` may shadow anything, a block's
+   bindings are dropped at its end. *)
+Fixpoint rtype_expr (E : tframe) (e : rexpr) : option ty :=
   match e with
   | RInt n => if in_i64b n then Some TyInt else None
   | RBool _ => Some TyBool
-  | RVar x => match tlookup x E with Some (TyUnk, _) => None | Some (t, _) => Some t | None => None end
+  | RVar x => match tflookup x E with Some (TyUnk, _) => None | Some (t, _) => Some t | None => None end
   | RNeg e1 => match rtype_expr E e1 with Some TyInt => Some TyInt | _ => None end
   | RNot e1 => rtype_expr E e1
   | RBin o l r =>
@@ -554,48 +557,41 @@ Fixpoint rtype_expr (E : tenv) (e : rexpr) : option ty :=
 
 Definition is_i64 (o : option ty) : bool := match o with Some TyInt => true | _ => false end.
 Definition is_boolt (o : option ty) : bool := match o with Some TyBool => true | _ => false end.
+Definition is_some {A} (o : option A) : bool := match o with Some _ => true | None => false end.
 
 (* [lp]: inside a loop body (break/continue allowed).  Returns the environment after the
-   statement (bindings of the current block), or None if rustc would reject. *)
-Fixpoint rtype_stmt (lp : bool) (E : tenv) (s : rstmt) : option tenv :=
+   statement, or None if rustc would reject. *)
+Fixpoint rtype_stmt (lp : bool) (E : tframe) (s : rstmt) : option tframe :=
   match s with
-  | GLet x m e => match rtype_expr E e with Some t => Some (tbind x (t, m) E) | None => None end
+  | GLet x m e => match rtype_expr E e with Some t => Some ((x, (t, m)) :: E) | None => None end
   | GAssign x e =>
-      match tlookup x E, rtype_expr E e with
+      match tflookup x E, rtype_expr E e with
       | Some (t, true), Some t' => if ty_eqb t t' then Some E else None
       | _, _ => None
       end
   | GIf c th el =>
-      if is_boolt (rtype_expr E c) then
-        match rtype_block lp ([] :: E) th with
-        | Some _ => match el with
-                    | GNoElse => Some E
-                    | GElse b => match rtype_block lp ([] :: E) b with Some _ => Some E | None => None end
-                    end
-        | None => None
-        end
-      else None
+      if is_boolt (rtype_expr E c) && is_some (rtype_block lp E th) &&
+         match el with GNoElse => true | GElse b => is_some (rtype_block lp E b) end
+      then Some E else None
   | GWhile c b =>
-      if is_boolt (rtype_expr E c) then
-        match rtype_block true ([] :: E) b with Some _ => Some E | None => None end
-      else None
-  | GLoop b => match rtype_block true ([] :: E) b with Some _ => Some E | None => None end
+      if is_boolt (rtype_expr E c) && is_some (rtype_block true E b) then Some E else None
+  | GLoop b => if is_some (rtype_block true E b) then Some E else None
   | GFor x a z s b =>
-      if is_i64 (rtype_expr E a) && is_i64 (rtype_expr E z) && is_i64 (rtype_expr E s) then
-        match rtype_block true ([(x, (TyInt, false))] :: E) b with Some _ => Some E | None => None end
-      else None
+      if is_i64 (rtype_expr E a) && is_i64 (rtype_expr E z) && is_i64 (rtype_expr E s) &&
+         is_some (rtype_block true ((x, (TyInt, false)) :: E) b)
+      then Some E else None
   | GPrint e => match rtype_expr E e with Some _ => Some E | None => None end
   | GUnit => Some E
   | GBreak | GContinue => if lp then Some E else None
   end
-with rtype_block (lp : bool) (E : tenv) (b : rblock) : option tenv :=
+with rtype_block (lp : bool) (E : tframe) (b : rblock) : option tframe :=
   match b with
   | GNil => Some E
   | GCons s r => match rtype_stmt lp E s with Some E1 => rtype_block lp E1 r | None => None end
   end.
 
 Definition rtype_fn (ps : list ident) (b : rblock) : bool :=
-  match rtype_block false [map (fun p => (p, (TyInt, false))) ps] b with Some _ => true | None => false end.
+  is_some (rtype_block false (map (fun p => (p, (TyInt, false))) ps) b).
 
 (* decidable equality of terms: used to define the grouping class by the re-parse itself *)
 Definition rbop_eq_dec (a b : rbop) : {a = b} + {a <> b}.
